@@ -253,6 +253,22 @@ def spec_strict(tt):
     return bad
 
 
+def true_parents(tt, level, node):
+    """the ancestors of a node read off the child lists of the tree's own dict, nearest first -- no query method
+    of the implementation involved; None when some level does not hold exactly one parent"""
+    h = list(tt.hierarchy)
+    d = tt._data
+    out = {}
+    cur = node
+    for j in range(h.index(level) - 1, -1, -1):
+        ps = [p for p, ch in d[h[j]].items() if cur in ch]
+        if len(ps) != 1:
+            return None
+        cur = ps[0]
+        out[h[j]] = cur
+    return out
+
+
 def anc_path(tt, level, node):
     """ancestors through the public parents() query: {level: node}"""
     return tt.parents(level, node)
@@ -264,6 +280,10 @@ def spec_inverse(tt):
     for k in range(len(h)):
         for x in tt.nodes_at_level(h[k]):
             par = tt.parents(h[k], x)
+            tp = true_parents(tt, h[k], x)
+            if tp is not None and (par != tp or list(par.keys()) != list(tp.keys())):
+                bad.append(('inverse', f'parents({h[k]},{x}) = {par}, the child lists give {tp}'))
+                continue
             if list(par.keys()) != list(reversed(h[:k])):
                 bad.append(('inverse', f'parents({h[k]},{x}) has levels {list(par.keys())}'))
                 continue
@@ -282,12 +302,15 @@ def spec_inverse(tt):
 
 
 def leaves_under(tt, k, x):
-    """independent of as_leaves: leaves whose ancestor at level k is x"""
+    """independent of as_leaves AND of parents(): descent from x through the child lists of the tree's own dict
+    (the oracle used parents() until seed C10-I -- a parents() memoised by name alone -- made it raise KeyError
+    before spec_inverse could report the failing query)"""
     h = tt.hierarchy
-    leaf = h[-1]
-    if k == len(h) - 1:
-        return {x} & set(tt.all_leaves)
-    return {l for l in tt.all_leaves if tt.parents(leaf, l)[h[k]] == x}
+    d = tt._data
+    cur = [x]
+    for j in range(k, len(h) - 1):
+        cur = [c for p in cur for c in d[h[j]].get(p, [])]
+    return set(cur) & set(tt.all_leaves)
 
 
 def spec_partition(tt):
@@ -458,7 +481,9 @@ def backfill_cases(ctx, batch, tt, T, rk, desc, rng, n_cells=3):
     good_cells = []
     for ci in range(n_cells):
         leaf = rng.choice(leaves)
-        par = tt.parents(h[-1], leaf)
+        par = true_parents(tt, h[-1], leaf)
+        if par is None:
+            continue
         truth = {lv: par[lv] for lv in h[:-1]}
         truth[h[-1]] = leaf
         mode = rng.choice(['reduced', 'reduced', 'reduced', 'flat', 'no_leaf', 'inconsistent', 'ghost'])
